@@ -27,7 +27,7 @@ ASSUMPTIONS = [
     "pyserial wraps OS errors in SerialException)",
 ]
 REQUIRED_CLASSES = ["nontrivial", "latched_then_request", "disconnected_then_request", "fault_in_multi_command",
-                    "connect_after_error", "never_connected_request"]
+                    "connect_after_error", "never_connected_request", "warm_history"]
 QUICK_SHARDS = 4
 
 FAULT_KINDS = ["silence", "errline", "wrongname", "raise_write", "raise_read", "old_firmware"]
@@ -180,7 +180,10 @@ def fault_action(kind, draw_exc_w, draw_exc_r):
 @st.composite
 def call_ops(draw, with_fault_prob=50):
     name = draw(st.sampled_from(sorted(em.METHODS)))
-    args = list(draw(em.METHODS[name][0]))
+    if draw(st.booleans()):
+        args = list(em.METHODS[name][1])     # the fixed sample: repeated values and slots collide across calls
+    else:
+        args = list(draw(em.METHODS[name][0]))
     faults = {}
     if draw(st.integers(0, 99)) < with_fault_prob:
         idx = draw(st.integers(0, 9))
@@ -264,7 +267,42 @@ def grid_body(ctx, case):
         ctx.count("grid_pairs_with_second_call_blocked")
 
 
+WARM_FAULTS = {"silence": ["0", ["silence"]], "errline": ["1", ["errline"]], "wrongname": ["1", ["wrongname"]],
+               "raise_write": ["0", ["raise", "SerialException"]], "raise_read": ["1", ["raise", "OSError"]]}
+
+
+def warm_grid():
+    """Every request method once successfully (so anything the object remembers is populated), then a fault
+    of each kind in each of several carrier methods, then every request method once more."""
+    names = sorted(em.METHODS)
+    for kind in WARM_FAULTS:
+        for carrier in ("query", "command", "var_read", "query_steps", "pen_lower"):
+            for m2 in names:
+                yield ["warm", kind, carrier, m2]
+
+
+def warm_body(ctx, case):
+    _tag, kind, carrier, m2 = case
+    sim = Sim(ctx)
+    sim.step(["connect", "good"])
+    for name in sorted(em.METHODS):
+        if name in ("reboot", "bootload"):
+            continue
+        sim.step(["call", name, list(em.METHODS[name][1]), {}])
+    if sim.obj.err is not None:
+        raise sut.HarnessError("warm-up recorded an error on a conforming board: %r" % (sim.obj.err,))
+    idx, action = WARM_FAULTS[kind]
+    sim.step(["call", carrier, list(em.METHODS[carrier][1]), {idx: action}])
+    latched = sim.obj.err is not None
+    sim.step(["call", m2, list(em.METHODS[m2][1]), {}])
+    sim.step(["call", m2, list(em.METHODS[m2][1]), {}])
+    ctx.record(case, sim.flags | {"warm_history"}, nontrivial=latched)
+
+
 def run(ctx):
+    ctx.exhaustive("warm-grid", warm_grid(), warm_body,
+                   "30 successful calls (every method, fixed arguments), then 5 fault kinds x 5 carrier methods, "
+                   "then each of the 32 methods twice")
     unknown = em.unknown_public_methods()
     ctx.notes["public_methods_not_in_table"] = unknown
     ctx.exhaustive("method-fault-method-grid", grid(), grid_body,
@@ -274,6 +312,9 @@ def run(ctx):
 
 
 def replay(ctx, part, case):
+    if case and case[0] == "warm":
+        warm_body(ctx, case)
+        return
     if case and not isinstance(case[0], list):       # a grid triple; failures carry histories
         grid_body(ctx, case)
         return
